@@ -549,8 +549,9 @@ class PdoMap:
     def stop(self) -> None:
         """Stop transmission."""
         if self._task is not None:
-            self._task.stop()
-            self._task = None
+            # Forget the task first, a stop that fails is not to be repeated
+            task, self._task = self._task, None
+            task.stop()
 
     def update(self) -> None:
         """Update periodic message with new data."""
